@@ -227,7 +227,10 @@ static Reg r_f32scan("f32scan", [](const Args& a) {
 // ------------------------------------------------------------------------------------------------------------------
 template<class T> static void op_gsum(const Args& a) {
   T u = untok<T>(a[1]), v = untok<T>(a[2]), t; T s = Math::sum(u, v, t);
-  emit(tok(s) + " " + tok(t));
+  // Accumulator<T>::fastsum (private, documented "requires abs(u) >= abs(v)", currently unused by the library): same contract
+  T fs = s, ft = t;
+  if (std::fabs(u) >= std::fabs(v)) fs = Accumulator<T>::fastsum(u, v, ft);
+  emit(tok(s) + " " + tok(t) + " " + tok(fs) + " " + tok(ft));
 }
 static Reg r_gsum("gsum", [](const Args& a) {
   if (a[0] == "f") op_gsum<float>(a); else if (a[0] == "l") op_gsum<long double>(a); else op_gsum<double>(a);
@@ -618,7 +621,7 @@ template<class T> static void gen_acc(Rng& r, long n) {
 void gv::generate(const std::string& tier, uint64_t seed) {
   Rng r(seed * 1000003 + 16);
   bool thorough = tier == "thorough";
-  long n = thorough ? 400000 : 20000;
+  long n = thorough ? 100000 : 20000;
   run("gconst", {});
   // ---- double ops judged by the Lean binary64 model
   for (long i = 0; i < n; ++i) {
@@ -643,7 +646,7 @@ void gv::generate(const std::string& tier, uint64_t seed) {
     if (i < 3) sample(current_op());
   }
   // ---- every instantiation: exact relations in Lean at the instantiation's precision, libm-based ones against the wider type
-  long m = thorough ? 120000 : 6000;
+  long m = thorough ? 30000 : 6000;
   gen_T<float>(r, m); gen_T<double>(r, m); gen_T<long double>(r, m);
   gen_acc<double>(r, m / 3); gen_acc<float>(r, m / 3);
   // ---- float: uniformly random bit patterns in the quick tier, all 2^32 in the thorough tier (16 processes x 2^28)
